@@ -2207,8 +2207,10 @@ func (d *Data) StoreBlocks(ctx *datastore.VersionedCtx, r io.Reader, kafkaOff bo
 		return 0, err
 	}
 
-	// d.Lock()
-	// defer d.Unlock()
+	// Element edits read a block's list, change it and write it back under editMu; a block
+	// list stored here in between would be overwritten by the edit's stale copy.
+	d.editMu.Lock()
+	defer d.editMu.Unlock()
 
 	// Do modifications under a batch.
 	store, err := d.KVStore()
